@@ -24,7 +24,7 @@ use std::sync::{Arc, Mutex};
 use std::time::{Duration, Instant};
 
 /// generous wall-clock limit of one child: the budgeted work of every case takes well under a second
-const CHILD_LIMIT_SECS: u64 = 25;
+const CHILD_LIMIT_SECS: u64 = 60;
 /// modules with more cards than this are not printed as Coq terms (the model is not evaluated on them)
 const MAX_MODEL_CARDS: usize = 700;
 
@@ -311,6 +311,8 @@ fn run_child(exe: &std::path::Path, file: &std::path::Path) -> Obs {
                     let _ = child.wait();
                     break None;
                 }
+                // the parent's own watchdog only guards the parent: the children have their own limit
+                out::heartbeat();
                 std::thread::sleep(Duration::from_millis(3));
             }
             Err(_) => break None,
@@ -1017,6 +1019,7 @@ pub fn gen(a: &Args) {
     std::fs::create_dir_all(&dir).unwrap();
     let mut files = vec![];
     for (i, s) in specs.iter().enumerate() {
+        out::heartbeat();
         let p = dir.join(format!("case_{}.txt", i + 1));
         let header = serde_json::json!({
             "fmt": s.fmt, "limit": s.limit,
